@@ -416,30 +416,62 @@ func (s *Server) handleConn(ctx context.Context, conn *Conn, module *Module, pc 
 // but follows a link in the last position whose target ends in a slash to
 // wherever the next link points (Go 1.25), and a client that can upload to
 // the module can plant such links.
-func subdirInModule(modulePath, subdir string, subRoot *os.Root) error {
+//
+// It returns the resolved path of the subdirectory: the name of a root opened
+// below another root is relative (Go 1.25), and code that falls back to the
+// name of the root (renameio.SymlinkRoot creates its temporary directory
+// there) would otherwise work relative to the daemon's working directory.
+func subdirInModule(modulePath, subdir string, subRoot *os.Root) (string, error) {
 	modReal, err := filepath.EvalSymlinks(modulePath)
 	if err != nil {
-		return err
+		return "", err
 	}
 	subReal, err := filepath.EvalSymlinks(filepath.Join(modulePath, subdir))
 	if err != nil {
-		return err
+		return "", err
 	}
 	if subReal != modReal && !strings.HasPrefix(subReal, strings.TrimSuffix(modReal, string(filepath.Separator))+string(filepath.Separator)) {
-		return fmt.Errorf("subdirectory %q leaves the module", subdir)
+		return "", fmt.Errorf("subdirectory %q leaves the module", subdir)
 	}
 	want, err := os.Stat(subReal)
 	if err != nil {
-		return err
+		return "", err
 	}
 	got, err := subRoot.Stat(".")
 	if err != nil {
-		return err
+		return "", err
 	}
 	if !os.SameFile(want, got) {
-		return fmt.Errorf("subdirectory %q changed while it was opened", subdir)
+		return "", fmt.Errorf("subdirectory %q changed while it was opened", subdir)
 	}
-	return nil
+	if !filepath.IsAbs(subReal) {
+		if subReal, err = filepath.Abs(subReal); err != nil {
+			return "", err
+		}
+	}
+	return subReal, nil
+}
+
+// reopenByPath replaces subRoot by a root for the same directory whose name
+// is the absolute path subReal.
+func reopenByPath(subRoot *os.Root, subReal string) (*os.Root, error) {
+	named, err := os.OpenRoot(subReal)
+	if err != nil {
+		return nil, err
+	}
+	want, err := subRoot.Stat(".")
+	if err == nil {
+		var got os.FileInfo
+		if got, err = named.Stat("."); err == nil && !os.SameFile(want, got) {
+			err = fmt.Errorf("%s changed while it was opened", subReal)
+		}
+	}
+	if err != nil {
+		named.Close()
+		return nil, err
+	}
+	subRoot.Close()
+	return named, nil
 }
 
 // handleConnReceiver is equivalent to rsync/main.c:do_server_recv
@@ -530,18 +562,21 @@ func (s *Server) handleConnReceiver(module *Module, crd *rsyncwire.CountingReade
 					return fmt.Errorf("OpenRoot(%s): %v", subdir, err)
 				}
 			}
-			if err := subdirInModule(module.Path, subdir, subRoot); err != nil {
+			subReal, err := subdirInModule(module.Path, subdir, subRoot)
+			if err != nil {
 				subRoot.Close()
 				return err
 			}
-			if name := subRoot.Name(); filepath.IsAbs(name) {
-				rt.Dest = name
-			} else {
-				// Go changed behavior: In Go 1.25, subRoot.Name()
-				// did not return an absolute path:
-				// https://go.googlesource.com/go/+/ed7f804
-				rt.Dest = filepath.Join(rt.Dest, name)
+			// In Go 1.25, subRoot.Name() is not an absolute path:
+			// https://go.googlesource.com/go/+/ed7f804
+			named, err := reopenByPath(subRoot, subReal)
+			if err != nil {
+				subRoot.Close()
+				return err
 			}
+			subRoot = named
+			defer subRoot.Close()
+			rt.Dest = subReal
 			rt.DestRoot = subRoot
 			if opts.Verbose() {
 				s.logger.Printf("opened subdirectory %q", rt.Dest)
